@@ -5,7 +5,8 @@
 (* numbers differ).  All runs must agree on everything observable:         *)
 (*   - per peer: the sequence of advance_frame results, request lists      *)
 (*     (with the inputs and statuses of every AdvanceFrame), current and   *)
-(*     confirmed frames and game states, call by call;                     *)
+(*     confirmed frames and game states, call by call, and what the handle *)
+(*     getters of the public API return;                                   *)
 (*   - per peer and remote address: the sequence of events;                *)
 (* (the order of events of DIFFERENT addresses and of packets on different *)
 (* links is not promised and not compared).                                *)
@@ -24,7 +25,9 @@ NPeers == Len(Rec[1].cfg.peers)
 TickProj(r) == [ r |-> r.r, q |-> IF "q" \in DOMAIN r THEN r.q ELSE <<>>,
                  cur |-> IF "cur" \in DOMAIN r THEN r.cur ELSE -9,
                  conf |-> IF "conf" \in DOMAIN r THEN r.conf ELSE -9,
-                 g |-> IF "g" \in DOMAIN r THEN r.g ELSE <<>> ]
+                 g |-> IF "g" \in DOMAIN r THEN r.g ELSE <<>>,
+                 \* what local_player_handles() / remote_player_handles() / spectator_handles() return
+                 hl |-> IF "hl" \in DOMAIN r THEN r.hl ELSE <<>> ]
 Ticks(T, p) == LET s == SelectSeq(T, LAMBDA r : r.a = "tick" /\ r.p = p /\ r.r # "skip")
                IN [i \in 1..Len(s) |-> TickProj(s[i])]
 
